@@ -18,10 +18,10 @@ from .faults import Crash, Interposer, ERRORS_FOR
 CS = 2
 
 
-def _info(dtype, encoding, sharding=None, nscales=2):
+def _info(dtype, encoding, sharding=None, nscales=2, cs=CS):
     scales = []
     for k in range(nscales):
-        s = {"key": "s%d" % (k + 1), "size": [4, 4, 2], "chunk_sizes": [[CS, CS, CS]],
+        s = {"key": "s%d" % (k + 1), "size": [2 * cs, 2 * cs, cs], "chunk_sizes": [[cs, cs, cs]],
              "resolution": [2 ** k] * 3, "voxel_offset": [0, 0, 0], "encoding": encoding}
         if encoding == "compressed_segmentation":
             s["compressed_segmentation_block_size"] = [2, 2, 2]
@@ -34,9 +34,9 @@ def _info(dtype, encoding, sharding=None, nscales=2):
 COORDS = [(0, 2, 0, 2, 0, 2), (2, 4, 0, 2, 0, 2), (0, 2, 2, 4, 0, 2), (2, 4, 2, 4, 0, 2)]
 
 
-def arr(seed, dtype):
+def arr(seed, dtype, cs=CS):
     rng = np.random.default_rng(seed)
-    return rng.integers(0, 200, size=(1, 2, 2, 2)).astype(dtype)
+    return rng.integers(0, 200, size=(1, cs, cs, cs)).astype(dtype)
 
 
 def blist(a):
@@ -47,12 +47,23 @@ class Scenario:
     """name, accessor kind/options, encoding; setup(); op(); targets; others"""
 
     def __init__(self, name, kind, encoding="raw", dtype="uint8", flat=False, gzip=True,
-                 op="store_new", strategy="in memory", enc="raw", bits=(0, 1, 1), order=(3, 0, 2)):
+                 op="store_new", strategy="in memory", enc="raw", bits=(0, 1, 1), order=(3, 0, 2), cs=CS):
         self.name, self.kind, self.encoding, self.dtype = name, kind, encoding, dtype
         self.bits, self.order = tuple(bits), tuple(order)     # (preshift, minishard, shard) bits; store order
         self.flat, self.gzip, self.opname, self.strategy, self.enc = flat, gzip, op, strategy, enc
         if encoding == "compressed_segmentation":
             self.dtype = "uint32"
+        self.cs = cs          # chunk edge (the lossy codec needs chunks larger than its header)
+        self.coords = [tuple(v * cs // CS for v in c) for c in COORDS]
+
+    def canon(self, a):
+        """what a reader is expected to decode for the written array: the array itself,
+        or (lossy jpeg) the decoding of the complete encoded chunk"""
+        if self.encoding != "jpeg":
+            return a
+        from neuroglancer_scripts import chunk_encoding as ce
+        enc = ce.JpegChunkEncoder("uint8", 1)
+        return enc.decode(enc.encode(a), (a.shape[3], a.shape[2], a.shape[1]))
 
     def accessor(self, base, write=True):
         from neuroglancer_scripts import file_accessor as fa
@@ -75,20 +86,20 @@ class Scenario:
         from neuroglancer_scripts import precomputed_io as pio
         base = os.path.join(sandbox, "ds")
         os.makedirs(base)
-        info = _info(self.dtype, self.encoding, self.sharding())
+        info = _info(self.dtype, self.encoding, self.sharding(), cs=self.cs)
         acc = self.accessor(base)
         w = pio.get_IO_for_new_dataset(info, acc)
         self.expected = {}
         # earlier session: scale s1 fully written; for the file accessor also A, B of s2
-        for i, c in enumerate(COORDS):
-            a = arr(100 + i, self.dtype)
+        for i, c in enumerate(self.coords):
+            a = arr(100 + i, self.dtype, self.cs)
             w.write_chunk(a, "s1", c)
-            self.expected[("s1", c)] = a
-        pre2 = COORDS[:2] if self.kind == "file" else []
+            self.expected[("s1", c)] = self.canon(a)
+        pre2 = self.coords[:2] if self.kind == "file" else []
         for i, c in enumerate(pre2):
-            a = arr(200 + i, self.dtype)
+            a = arr(200 + i, self.dtype, self.cs)
             w.write_chunk(a, "s2", c)
-            self.expected[("s2", c)] = a
+            self.expected[("s2", c)] = self.canon(a)
         if self.kind == "sharded":
             acc.close()
         self.base = base
@@ -107,17 +118,19 @@ class Scenario:
         if op in ("store_new", "store_overwrite"):
             w = pio.get_IO_for_existing_dataset(acc)
             if self.kind == "file":
-                c = COORDS[2] if op == "store_new" else COORDS[0]
+                c = self.coords[2] if op == "store_new" else self.coords[0]
                 cs = [c]
             else:
-                cs = [COORDS[i] for i in self.order]       # out of identifier order
+                cs = [self.coords[i] for i in self.order]       # out of identifier order
             self.targets = []
+            raw_arrays = []
             for i, c in enumerate(cs):
-                a = arr(300 + i, self.dtype)
+                a = arr(300 + i, self.dtype, self.cs)
                 old = self.expected.get(("s2", c))
-                self.targets.append((("s2", c), a, old))
+                raw_arrays.append(a)
+                self.targets.append((("s2", c), self.canon(a), old))
             self.accepted = []
-            for (k, c), a, old in self.targets:
+            for ((k, c), _a, old), a in zip(self.targets, raw_arrays):
                 w.write_chunk(a, k, c)
                 self.accepted.append((k, c))
             if self.kind == "sharded":
@@ -131,7 +144,7 @@ class Scenario:
         r = pio.get_IO_for_existing_dataset(acc)
         self.targets = []
         if op == "fetch":
-            c = COORDS[1]
+            c = self.coords[1]
             a = r.read_chunk("s1", c)
             return "fetch", blist(a), blist(self.expected[("s1", c)])
         if op == "fetch_info":
